@@ -219,7 +219,7 @@ func TestMakeSeeds(t *testing.T) {
 		s.block(s.vote(idB, 0, yes), s.vote(idB, 1, yes), s.vote(idB, 2, yes)) // A finalised (failed): no option may change
 		s.block(s.vote(idD, 0, yes), s.vote(idD, 1, yes), s.vote(idD, 2, yes)) // B finalised: ons option changes
 		s.block(s.vote(idC, 0, yes), s.vote(idC, 1, yes), s.vote(idC, 2, yes)) // D finalised: evidence option changes
-		s.block()                                                             // C: finalisation fails (minVotesRequired 700 < 70% of 1100)
+		s.block()                                                              // C: finalisation fails (minVotesRequired 700 < 70% of 1100)
 		s.block()
 		s.write(t, dir, "seed-config-updates.json", "four config-update proposals: one fails the vote, two pass and are applied, one passes but is invalid when finalised")
 	}
